@@ -257,7 +257,18 @@ def token_for(present, extra=(), split=False, second_module=False):
     else:
         mods = [[{"id": 0, "objs": objs}]]
     if second_module:
-        mods.append([{"id": 10, "objs": []}])
+        # several hsm: sections: an empty module after or before the one with the keys, or the configured keys spread over two modules
+        # (a KSK held only by a later module is still exported: get_p11_key asks every module in turn)
+        mode = R.choice(["empty-last", "empty-first", "spread", "spread"])
+        if mode == "empty-last":
+            mods.append([{"id": 10, "objs": []}])
+        elif mode == "empty-first":
+            mods.insert(0, [{"id": 10, "objs": []}])
+        else:
+            labels = sorted({o["label"] for o in objs})
+            R.shuffle(labels)
+            later = set(labels[: max(1, len(labels) // 2)]) if labels else set()
+            mods = [[{"id": 0, "objs": [o for o in objs if o["label"] not in later]}], [{"id": 10, "objs": [o for o in objs if o["label"] in later]}]]
     return mods
 
 
@@ -280,13 +291,16 @@ for chosen, pres in (patterns if THOROUGH else patterns[:40]):
         ksks[f"ksk{j}"] = ceremony.ksk_def(kd, valid_from=vf, valid_until=vu)
     present = [kd for kd, p in zip([CONF[i] for i in chosen], pres) if p]
     extra = [k for k in KEYS[5:7] if R.random() < 0.6]
-    export_case(token_for(present, extra, split=R.random() < 0.3, second_module=R.random() < 0.2), ksks, None, R.choice(IDS), "present-absent")
+    export_case(token_for(present, extra, split=R.random() < 0.3, second_module=R.random() < 0.35), ksks, None, R.choice(IDS), "present-absent")
 # absent before present (configuration order), all absent, none configured
 ks = {"a": ceremony.ksk_def(KEYS[0], valid_from=stamp("odd")), "b": ceremony.ksk_def(KEYS[1], valid_from=stamp("odd")), "c": ceremony.ksk_def(KEYS[3], valid_from=stamp("tz")),
       "d": ceremony.ksk_def(KEYS[4], valid_from=stamp("tz"))}
 export_case(token_for([KEYS[1], KEYS[3], KEYS[4]], [KEYS[5]]), ks, None, "order-1", "absent-before-present")
 export_case(token_for([KEYS[0], KEYS[4]], [KEYS[6]]), ks, None, "order-2", "absent-before-present")
 export_case(token_for([], KEYS[5:7]), ks, None, "none", "all-absent")
+# every configured KSK on the token, the token being two modules (three draws of which module holds which key)
+for variant in range(3):
+    export_case(token_for([KEYS[0], KEYS[1], KEYS[3], KEYS[4]], [KEYS[5]], second_module=True), ks, None, f"modules-{variant}", "keys-spread-over-modules")
 # equal validFrom, descending configuration order, validity given with offsets that change the order of the wall-clock digits
 t0 = dt.datetime(2024, 10, 10, 17, 0, 0, tzinfo=dt.timezone(dt.timedelta(hours=-8)))
 for variant in range(4):
